@@ -88,6 +88,7 @@ class TriggerHandler:
         """
         self.__old_thread_trace = None
         self.__old_sys_trace = None
+        self.__start_thread = None
         self.__shutdown = False
         self._push_service = push_service
         self._tp_config: List[Trigger] = []
@@ -102,6 +103,7 @@ class TriggerHandler:
         # so we allow the settrace to be disabled, so we can at least debug around it
         if self._config.NO_TRACE:
             return
+        self.__start_thread = threading.get_ident()
         self.__old_sys_trace = sys.gettrace()
         # gettrace was added in 3.10, so use it if we can, else try to get from property
         # noinspection PyUnresolvedReferences,PyProtectedMember
@@ -153,6 +155,8 @@ class TriggerHandler:
         :param arg: the args
         :return: None to ignore other calls, or our self to continue
         """
+        if self.__shutdown:
+            return self.__leave_thread()
         try:
             return self._trace_call(frame, event, arg)
         except BaseException:
@@ -162,6 +166,22 @@ class TriggerHandler:
                 # e.g. the application is close to the recursion limit: there is no room left, not even to log
                 pass
             return self.trace_call
+
+    def __leave_thread(self):
+        """
+        Remove our trace function from the calling thread, after shutdown.
+
+        sys.settrace acts on the calling thread only: shutdown() can put the old function back for the thread it runs
+        on, every other thread (the one that started us, if that is another one, and all threads started since) keeps
+        calling us. Each puts back what it would have had without us when it next gets here.
+        """
+        try:
+            if not self._config.NO_TRACE and sys.gettrace() == self.trace_call:
+                mine = threading.get_ident() == self.__start_thread
+                sys.settrace(self.__old_sys_trace if mine else self.__old_thread_trace)
+        except BaseException:
+            pass
+        return None
 
     def _trace_call(self, frame: FrameType, event: str, arg):
         """
@@ -286,5 +306,8 @@ class TriggerHandler:
         if self._config.NO_TRACE:
             # we never installed our hooks, so there is nothing of ours to remove
             return
-        sys.settrace(self.__old_sys_trace)
+        if threading.get_ident() == self.__start_thread:
+            sys.settrace(self.__old_sys_trace)
+        # else: the function of the calling thread is not ours to replace; the starting thread removes us itself, at
+        # its next trace event (see __leave_thread)
         threading.settrace(self.__old_thread_trace)
